@@ -169,13 +169,13 @@ Representable(ast) ==
      LET v == Val64(ast.opds[j])  n == ImmLen(op, ast) IN
      IF op \in ImmOps8 THEN FitsZ(v, 1)
      ELSE IF op = "push" THEN FitsS(v, 4)
-     ELSE IF op = "mov" THEN (n = 8 \/ FitsZ(v, n) \/ FitsS(v, n))
+     ELSE IF op = "mov" /\ ast.opds[1].k = "r" THEN (n = 8 \/ FitsZ(v, n) \/ FitsS(v, n))   \* mov r64, imm64 exists
      ELSE IF n = 8 THEN FitsS(v, 4)                     \* imm32 sign-extended to 64
      ELSE FitsZ(v, n) \/ FitsS(v, n)
 
 (* ---------------------- option-dependent meaning ------------------------ *)
 IsMovR64Imm(ast) == ast.mn = "mov" /\ Len(ast.opds) = 2 /\ ast.opds[1].k = "r" /\ ast.opds[1].w = 64 /\ ast.opds[2].k = "i"
-Narrowable(im)   == ~im.neg /\ FitsZ(im.mag, 4)             \* 0 <= imm <= 0xffffffff
+Narrowable(im)   == FitsZ(Val64(im), 4)                    \* 0 <= imm <= 0xffffffff
 AllDigits(im)    == im.radix = "hex" /\ im.digits = 16
 NarrowExpected(im, mov) ==
   IF mov = "STRICT" THEN FALSE
@@ -230,7 +230,6 @@ RelWhy(ast, d) ==
   IN IF r.k # "j" THEN "operand-kind"
      ELSE IF r.v # SubSeq(v, 1, 4) THEN "displacement"
      ELSE IF im.kw = "long" /\ r.s THEN "long-got-rel8"
-     ELSE IF im.kw = "short" /\ ~r.s THEN "short-got-rel32"
      ELSE ""
 
 IsRelForm(ast) == Len(ast.opds) = 1 /\ ast.opds[1].k = "i" /\ (ast.mn \in Jccs \cup {"jmp","call","jrcxz","xbegin"})
